@@ -4,6 +4,19 @@ claimed / not_applicable partition is always consistent)."""
 import json
 
 CLAIMS = {
+ 'C09': dict(
+   text='PARTIAL (pipeline shape only): decides that every grouping operator sorts by its own key parameter unless '
+        'presorted, groups by that same parameter (constructor parameter -> view attribute -> iterator parameter -> '
+        'rowgroupby), hands every group to the aggregation function whole (no filter / slice / partial consumption in '
+        'the driver) with exactly one output row per group on every path; rowgroupby groups a Record stream by a '
+        'Comparable key and unwraps it; groupselectmin/max sort by value then re-sort by key; the key-less simple '
+        'aggregate yields its single row unconditionally (also for zero rows). Given C05 (stable sort) and the groupby '
+        'contract this shape implies that each row is in exactly one group.',
+   ref='DESIGN.md §4 C09',
+   note='does NOT evaluate aggregation functions or compare outputs with a reference grouping; mergeduplicates may filter '
+        'missing values by documentation; valuecounts/valuecounter (Counter based) are not covered',
+   technique='def-use chain check of the key parameter across constructor / __iter__ / iterator + per-path yield '
+             'counting + decision table of the key-less branch'),
  'C05': dict(
    text='PARTIAL (structural obligations only): decides the facts which, with the stdlib contracts (stable list.sort, '
         'heapq.merge stable in iterable order, min/max return the first extremum), imply a stable sorted permutation '
